@@ -265,6 +265,26 @@ def check_props(mod, scratch):
     return res
 
 
+def run_coqchk(mod):
+    """Thorough tier: independent re-check of the property's .vo and everything it depends on."""
+    name = "Verif." + mod.PROPS_FILE[:-2].replace("/", ".")
+    t0 = time.time()
+    rc, out, err = run(["coqchk", "-silent", "-o", "-Q", COQ, "Verif", name], timeout=1500)
+    res = {"cmd": "coqchk -silent -o -Q coq Verif %s" % name, "rc": rc, "wall_s": round(time.time() - t0, 1)}
+    txt = out + err
+    m = re.search(r"\* Axioms:(.*?)\n\s*\n\* Constants/Inductives relying on type-in-type:(.*?)\n\s*\n"
+                  r"\* Constants/Inductives relying on unsafe \(co\)fixpoints:(.*?)\n\s*\n"
+                  r"\* Inductives whose positivity is assumed:(.*?)\n", txt, re.S)
+    if m:
+        res["axioms"] = " ".join(m.group(1).split())
+        res["type_in_type"] = " ".join(m.group(2).split())
+        res["unsafe_fixpoints"] = " ".join(m.group(3).split())
+        res["positivity_assumed"] = " ".join(m.group(4).split())
+    else:
+        res["output_tail"] = txt[-800:]
+    return res
+
+
 # ---------------------------------------------------------------------------
 # case evaluation inside Coq
 
@@ -524,6 +544,13 @@ def check(prop_id, tier, seed):
         if props["error"]:
             tie_broken.append({"what": "theorem no longer checks", "file": props.get("file"),
                                "detail": props["error"][-1500:]})
+        chk = None
+        if tier == "thorough" and not props["error"] and vo_ok(mod.PROPS_FILE):
+            chk = run_coqchk(mod)
+            if chk["rc"] != 0 or chk.get("type_in_type", "<none>") != "<none>" \
+                    or chk.get("unsafe_fixpoints", "<none>") != "<none>" \
+                    or chk.get("positivity_assumed", "<none>") != "<none>":
+                tie_broken.append({"what": "coqchk does not accept the property's .vo", "detail": chk})
 
         # source-change guard
         now = anchor_hashes(mod)
@@ -679,6 +706,7 @@ def check(prop_id, tier, seed):
                 "deep_budget": deep,
                 "gen_changed": log.get("gen_changed", []),
                 "tie_broken": tie_broken,
+                "coqchk": chk,
                 "spec_validation": spec_val,
                 "known_findings_seen": known_lines,
                 "notes": notes,
